@@ -417,6 +417,9 @@ class Aldor:
         S = build.src
         self.base = [build.aldor, "-Nfile=" + os.path.join(S, "aldor.conf"), "-Y" + os.path.join(R, "aldor", "lib", "libfoam", "al"),
                      "-I" + os.path.join(R, "lib", "aldor", "include"), "-Y" + os.path.join(R, "lib", "aldor", "src"), "-laldor"]
+        libfoam = getattr(build, "libfoam_dir", None) or os.path.join(R, "aldor", "lib", "libfoam")
+        self.c_opts = ["-Ccc=" + os.path.join(R, "aldor", "subcmd", "unitools", "unicl"),
+                       "-Cargs=-Wconfig=%s -I%s" % (os.path.join(S, "aldor.conf"), S), "-Y" + libfoam]
         self.root = common.scratch("aldor-verif-codec-")
         self.n = 0
         self.wall = 0.0
@@ -429,7 +432,7 @@ class Aldor:
             self.n += 1
             return self.n
 
-    def run(self, flags, inputs, timeout=120):
+    def run(self, flags, inputs, timeout=120, exe=None):
         """one compiler invocation in a fresh directory holding copies of `inputs` ({name: bytes});
         returns (rc, stdout, stderr, {name: bytes of every file present afterwards})"""
         d = os.path.join(self.root, "r%04d" % self.next_id())
@@ -438,6 +441,12 @@ class Aldor:
             with open(os.path.join(d, nm), "wb") as f: f.write(data)
         t0 = time.time()
         rc, out, err = common.run(self.base + list(flags), cwd=d, timeout=timeout, binary=True)
+        if exe is not None:
+            # native route: run the executable the compiler linked, in the same directory
+            if rc == 0 and os.path.exists(os.path.join(d, exe)):
+                rc, out, err = common.run([os.path.join(d, exe)], cwd=d, timeout=timeout, binary=True)
+            else:
+                rc, out, err = ("NOEXE(%s)" % rc, out, err)
         with self.lock:
             self.wall += time.time() - t0; self.runs += 1
         files = {}
@@ -698,6 +707,7 @@ def run_part(ctx, build):
     stats["corr_wall_s"] = round(time.time() - t_start, 1)
     if os.environ.get("CODEC_NO_E2E") != "1":
         run_e2e(ctx, build, T, ald)
+        run_splits(ctx, build, ald)
     return stats
 
 
@@ -909,6 +919,256 @@ def run_e2e(ctx, build, T, ald):
     st["compiler_runs"] = ald.runs
     st["wall_s"] = round(time.time() - t0, 1)
     ctx.cov["evaluations"] += st["pairs"] + st["splits"]
+    return st
+
+
+# ------------------------------------------------------------------------------- separate compilation
+SPLITDIR = os.path.join(CORPUS, "split")
+
+
+def parse_units(text):
+    """corpus/codec/split/*.as are one-unit programs whose top-level pieces are marked by comment
+    lines `--UNIT name [uses name…]` and `--MAIN`; returns (header, [(name, uses, body)], main)"""
+    header, units, main = [], [], []
+    cur = header
+    for ln in text.split("\n"):
+        if ln.startswith("--UNIT "):
+            w = ln.split()
+            uses = w[w.index("uses") + 1:] if "uses" in w else []
+            units.append((w[1], uses, [])); cur = units[-1][2]
+        elif ln.startswith("--MAIN"):
+            cur = main
+        else:
+            cur.append(ln)
+    return "\n".join(header) + "\n", [(n, u, "\n".join(b) + "\n") for n, u, b in units], "\n".join(main) + "\n"
+
+
+def src_one(prog):
+    h, units, main = prog
+    return (h + "".join(b for _, _, b in units) + main).encode()
+
+
+def src_unit(prog, name, ext="ao", archive=None):
+    """one unit as a file of its own; the units it uses are named by their .ao (or by the archive)"""
+    h, units, main = prog
+    n, uses, body = [u for u in units if u[0] == name][0]
+    t = '#include "aldor"\n'
+    for k, d in enumerate(uses):
+        t += '#library U%d "%s"\nimport from U%d;\n' % (k, archive or (d + "." + ext), k)
+    return (t + body).encode()
+
+
+def src_lib(prog, S):
+    """the units in S merged into one library unit"""
+    h, units, main = prog
+    return ('#include "aldor"\n' + "".join(b for n, _, b in units if n in S)).encode()
+
+
+def src_client(prog, S, libs, inline):
+    """everything not in S, then the main part; `libs`: file names of the libraries to import"""
+    h, units, main = prog
+    t = h
+    for k, f in enumerate(libs):
+        t += '#library L%d "%s"\nimport from L%d;\n' % (k, f, k)
+        if inline: t += "inline from L%d;\n" % k
+    return (t + "".join(b for n, _, b in units if n not in S) + main).encode()
+
+
+def closed(prog, S):
+    """a library cannot use what is left in the client"""
+    return all(set(u) <= S for n, u, _ in prog[1] if n in S)
+
+
+def mk_archive(ald, members):
+    """`ar cr` of the given {name: bytes}; returns the archive bytes (None if ar fails)"""
+    d = os.path.join(ald.root, "ar%d" % ald.next_id())
+    os.makedirs(d, exist_ok=True)
+    for nm, data in members.items():
+        with open(os.path.join(d, nm), "wb") as f: f.write(data)
+    rc, _, err = common.run(["ar", "cr", "out.al"] + list(members), cwd=d)
+    al = open(os.path.join(d, "out.al"), "rb").read() if rc == 0 else None
+    shutil.rmtree(d, ignore_errors=True)
+    return al
+
+
+def norm_run(r):
+    rc, o, e = r[0], r[1], r[2]
+    return (rc, re.sub(r"0x[0-9a-f]+", "0x?", o.decode("latin-1")))
+
+
+def run_prog(ald, q, route, main_name, files, objs=()):
+    """interpret (`interp`) or compile, link and execute (`c`) main_name.as in a directory holding `files`"""
+    if route == "interp":
+        return norm_run(ald.run([q, "-Ginterp", main_name + ".as"], files))
+    return norm_run(ald.run([q, "-Fx"] + ald.c_opts + [main_name + ".as"] + list(objs), files, timeout=300, exe=main_name))
+
+
+def split_diff(ref, got):
+    d = first_diff_lines(ref[1], got[1])
+    d.update(rc_one=ref[0], rc_split=got[0])
+    return d
+
+
+def split_cond(ald, prog, q, label="cond"):
+    """(1) a parametrised library domain overriding a category default under a condition, exported
+    constants, a generic function, map-typed exports; client with/without `inline from`, library as
+    .ao and inside an .al, interpreter and C routes, against the one-unit program"""
+    out = []
+    libn = prog[1][0][0]
+    S = {n for n, _, _ in prog[1]}
+    one = {"one.as": src_one(prog)}
+    ref = {"interp": run_prog(ald, q, "interp", "one", one), "c": run_prog(ald, q, "c", "one", one)}
+    for r, v in ref.items():
+        if v[0] != 0: out.append(("%s-one-unit-%s" % (label, r), "the one-unit program fails on the %s route (rc %s)" % (r, v[0]), {"stdout": v[1][-300:]}))
+    rc, o, e, f = ald.run([q, "-Fao", "-Fo"] + ald.c_opts + [libn + ".as"], {libn + ".as": src_lib(prog, S)}, timeout=300)
+    ao, ob = f.get(libn + ".ao"), f.get(libn + ".o")
+    if rc != 0 or ao is None or ob is None:
+        return out + [("%s-library-compile" % label, "the library unit does not compile: " + (o + e)[-300:].decode("latin-1"), {})]
+    al = mk_archive(ald, {libn + ".ao": ao})
+    n = 0
+    for inline in (False, True):
+        for form, libfile, data in (("ao", libn + ".ao", ao), ("al", libn + ".al", al)):
+            if data is None: continue
+            cli = {"cli.as": src_client(prog, S, [libfile], inline), libfile: data}
+            for route in ("interp", "c"):
+                files = dict(cli)
+                objs = ()
+                if route == "c":
+                    files[libn + ".o"] = ob; objs = (libn + ".o",)
+                got = run_prog(ald, q, route, "cli", files, objs)
+                n += 1
+                if got != ref[route]:
+                    out.append(("%s-%s" % (label, form),
+                                "library (.%s)%s + client differs from the one-unit program on the %s route" % (form, ", inline from" if inline else "", route),
+                                split_diff(ref[route], got)))
+    return out, n
+
+
+def split_archive(ald, prog, q):
+    """(2) archives whose members have names longer than 15 characters (the `//` long-name table) mixed
+    with short ones; several units of one archive used with `inline from`; against separate .ao files
+    and the one-unit program"""
+    out = []
+    names = [n for n, _, _ in prog[1]]
+    one = {"one.as": src_one(prog)}
+    ref = {"interp": run_prog(ald, q, "interp", "one", one), "c": run_prog(ald, q, "c", "one", one)}
+    aos, obs = {}, {}
+    for n, uses, _ in prog[1]:
+        files = {n + ".as": src_unit(prog, n)}
+        for d in uses: files[d + ".ao"] = aos[d + ".ao"]
+        rc, o, e, f = ald.run([q, "-Fao", "-Fo"] + ald.c_opts + [n + ".as"], files, timeout=300)
+        if rc != 0 or n + ".ao" not in f or n + ".o" not in f:
+            return out + [("archive-unit-compile", "unit %s does not compile: %s" % (n, (o + e)[-300:].decode("latin-1")), {})], 0
+        aos[n + ".ao"] = f[n + ".ao"]; obs[n + ".o"] = f[n + ".o"]
+    longn = [n for n in names if len(n + ".ao") > 15]
+    cnt = 0
+    configs = [("separate-ao", None, names)]
+    # archives: the 2 first long-named members + a short one; all members (>= 3 long)
+    short = [n for n in names if n not in longn]
+    closure = lambda sel: [n for n in names if n in sel or any(n in u for m, u, _ in prog[1] if m in sel)]
+    configs.append(("archive-2long", closure(set(longn[:2]) | set(short[:1])), names))
+    configs.append(("archive-all", names, names))
+    for label, members, _ in configs:
+        if members is None:
+            libs = [n + ".ao" for n in names]
+            base = {k: v for k, v in aos.items()}
+        else:
+            al = mk_archive(ald, {m + ".ao": aos[m + ".ao"] for m in members})
+            if al is None:
+                out.append(("archive-ar", "ar failed", {})); continue
+            if al[:8] != b"!<arch>\n" or (any(len(m + ".ao") > 15 for m in members) and b"//" not in al[:80]):
+                out.append(("archive-format", "the archive built by ar has no long-name table", {}))
+            rest = [n for n in names if n not in members]
+            libs = ["multi.al"] + [n + ".ao" for n in rest]
+            base = {"multi.al": al}
+            for n in rest: base[n + ".ao"] = aos[n + ".ao"]
+        for inline in ((True,) if label != "archive-all" else (True, False)):
+            cli = dict(base); cli["cli.as"] = src_client(prog, set(names), libs, inline)
+            for route in ("interp", "c"):
+                files = dict(cli); objs = ()
+                if route == "c":
+                    files.update(obs); objs = tuple(sorted(obs))
+                got = run_prog(ald, q, route, "cli", files, objs)
+                cnt += 1
+                if got != ref[route]:
+                    out.append((label,
+                                "client of %s%s differs from the one-unit program on the %s route" % (label, " with inline from" if inline else "", route),
+                                split_diff(ref[route], got)))
+    return out, cnt
+
+
+def split_subset(ald, prog, pname, S, q, inline):
+    """(3) one library/client split of the top-level domains: S goes to the library"""
+    one = {"one.as": src_one(prog)}
+    ref = run_prog(ald, q, "interp", "one", one)
+    rc, o, e, f = ald.run([q, "-Fao", "lib.as"], {"lib.as": src_lib(prog, S)})
+    if rc != 0 or "lib.ao" not in f:
+        return [("subset-library-compile", "%s: library of {%s} does not compile: %s" % (pname, ",".join(sorted(S)), (o + e)[-300:].decode("latin-1")), {})]
+    got = run_prog(ald, q, "interp", "cli", {"cli.as": src_client(prog, S, ["lib.ao"], inline), "lib.ao": f["lib.ao"]})
+    if got != ref:
+        return [("subset", "%s: library {%s} + client {%s}%s differs from the one-unit program at %s"
+                 % (pname, ",".join(sorted(S)), ",".join(n for n, _, _ in prog[1] if n not in S), ", inline from" if inline else "", q),
+                 split_diff(ref, got))]
+    return []
+
+
+def run_splits(ctx, build, ald):
+    from concurrent.futures import ThreadPoolExecutor
+    import itertools
+    t0 = time.time()
+    thorough = ctx.tier == "thorough"
+    st = {"cond_configs": 0, "archive_configs": 0, "subsets": 0, "subset_programs": 0, "differences": 0, "kinds": {}}
+    ctx.cov[NAME + "_split"] = st
+    if not os.path.isdir(SPLITDIR):
+        return st
+    load = lambda n: parse_units(open(os.path.join(SPLITDIR, n)).read())
+    rng = ctx.rng
+    jobs = []
+    with ThreadPoolExecutor(max_workers=max(2, min(8, common.NCPU))) as ex:
+        if os.path.exists(os.path.join(SPLITDIR, "cond.as")):
+            cond = load("cond.as")
+            for q in ("-Q0", "-Q2", "-Q9"):
+                jobs.append(("cond", q, ex.submit(split_cond, ald, cond, q)))
+        if os.path.exists(os.path.join(SPLITDIR, "fileconst.as")):
+            fc = load("fileconst.as")
+            for q in ("-Q0", "-Q2", "-Q9"):
+                jobs.append(("cond", q, ex.submit(split_cond, ald, fc, q, "fileconst")))
+        if os.path.exists(os.path.join(SPLITDIR, "multi.as")):
+            multi = load("multi.as")
+            for q in (("-Q2",) if not thorough else ("-Q0", "-Q2", "-Q9")):
+                jobs.append(("archive", q, ex.submit(split_archive, ald, multi, q)))
+        subs = sorted(f for f in os.listdir(SPLITDIR) if f.startswith("sub") and f.endswith(".as"))
+        st["subset_programs"] = len(subs)
+        allsplits = []
+        for fn in subs:
+            prog = load(fn)
+            names = [n for n, _, _ in prog[1]][:3]
+            for k in range(1, len(names) + 1):
+                for S in itertools.combinations(names, k):
+                    if closed(prog, set(S)):
+                        for q in ("-Q0", "-Q2", "-Q9"):
+                            for inline in (False, True):
+                                allsplits.append((fn[:-3], prog, set(S), q, inline))
+        st["subsets_possible"] = len(allsplits)
+        chosen = allsplits if thorough else rng.sample(allsplits, min(len(allsplits), 36))
+        for pn, prog, S, q, inline in chosen:
+            jobs.append(("subset", q, ex.submit(split_subset, ald, prog, pn, S, q, inline)))
+        for kind, q, f in jobs:
+            r = f.result()
+            if kind == "subset":
+                diffs = r; st["subsets"] += 1
+            else:
+                diffs, n = r if isinstance(r, tuple) else (r, 0)
+                st[kind + "_configs"] += n
+            for what, msg, rep in diffs:
+                st["differences"] += 1
+                st["kinds"][what] = st["kinds"].get(what, 0) + 1
+                ctx.finding("codec-e2e|split|%s" % what, "%s (%s); first difference: %s" % (msg, q, json_short(rep)),
+                            {"kind": "e2e-split-difference", "scenario": kind, "level": q, "what": msg, "first_difference": rep,
+                             "sources": "corpus/codec/split/*.as (pieces marked --UNIT/--MAIN), assembled by checks/parts/codec.py src_lib/src_client/src_unit",
+                             "how": "library: `aldor Q -Fao [-Fo] lib.as`; archive: `ar cr x.al members…`; client: `aldor Q -Ginterp cli.as` / `aldor Q -Fx cli.as lib.o` then ./cli; every run in a fresh directory"})
+    st["wall_s"] = round(time.time() - t0, 1)
+    ctx.cov["evaluations"] += st["cond_configs"] + st["archive_configs"] + st["subsets"]
     return st
 
 
